@@ -138,6 +138,39 @@ Theorem C15_redeem_debits_first : forall E s a x s',
 Proof. exact redeem_debits. Qed.
 Print Assumptions C15_redeem_debits_first.
 
+Definition honest : list op := two_honest ++ [Report 1%N 1%N 22%N 2 true; EndBlock {| nl_witness := false; nl_addr := 0%N; nl_bjob := [] |} [1%N]].
+
+(* (7b) ERC-20 locks (runERC20Lock; only its effect on the tracker stores is modelled).  The handler
+   has no existence check.  Outside the trigger (the name is in no store) it keeps the one-name-one-
+   tracker invariant; inside it the statements (5) and C15_record_stable are false of the model and
+   of the code: known finding C15.erc20_lock_no_existence_check (on the real application the same
+   external ERC-20 transfer is minted twice, and a pending lock is taken over by a resubmission
+   from another account; reproduced on every run by `vh c15 -erc20`). *)
+Theorem C15_erc_lock_partial : forall E okf s a x s' r,
+  trig_erc_relock E s x = false -> stores_disjoint s -> do_lock_erc E okf s a x = (s', r) -> stores_disjoint s'.
+Proof. exact erc_lock_partial. Qed.
+Print Assumptions C15_erc_lock_partial.
+
+(* a name that already passed (and was minted) gets a second, fresh tracker *)
+Theorem C15_refuted_erc_relock_passed : exists E okf s a x,
+  (exists ops, s = run E (init ∅) ops) /\ trig_erc_relock E s x = true /\
+  minted_names (log s) = [x_name (e_tx E x)] /\ ~ stores_disjoint (do_lock_erc E okf s a x).1.
+Proof.
+  exists E0, (fun _ => true), (run E0 (init ∅) honest), 1%N, 1%N.
+  split; [by exists honest|]. split; [by vm_compute|]. split; [by vm_compute|].
+  intros [D1 _]. specialize (D1 1%N). vm_compute in D1. destruct D1 as [D1 _]; [by eexists|discriminate].
+Qed.
+
+(* a pending tracker with two votes is replaced: votes gone, another owner *)
+Theorem C15_refuted_erc_overwrite : exists E okf s a x n t t',
+  (exists ops, s = run E (init ∅) ops) /\ trig_erc_relock E s x = true /\
+  ongoing s !! n = Some t /\ ongoing (do_lock_erc E okf s a x).1 !! n = Some t' /\
+  yes_votes t = 2 /\ yes_votes t' = 0 /\ t_owner t = 1%N /\ t_owner t' = 2%N.
+Proof.
+  exists E0, (fun _ => true), (run E0 (init ∅) two_honest), 2%N, 1%N, 1%N.
+  eexists _, _. split; [by exists two_honest|]. vm_compute. repeat split; reflexivity.
+Qed.
+
 (* (8) supply counter = wrapped tokens in circulation ([tot] counts the supply address too, hence
    the factor 2).  Forced hypothesis: no step of the history has the supply address as sender,
    tracker owner or transfer end.  Without it the statement is false of the model
@@ -157,7 +190,6 @@ Qed.
 
 (* non-vacuity: an honest history satisfies every hypothesis above, mints exactly once, credits
    the owner and keeps the counter equal to the circulation; a failing redeem is refunded once *)
-Definition honest : list op := two_honest ++ [Report 1%N 1%N 22%N 2 true; EndBlock {| nl_witness := false; nl_addr := 0%N; nl_bjob := [] |} [1%N]].
 Example C15_honest_history :
   let s := run E0 (init ∅) honest in
   supply_guarded E0 (init ∅) honest /\ minted_names (log s) = [1%N] /\ balof (bal s) 1%N = 100 /\
